@@ -662,6 +662,186 @@ def cancel_list_growth(n):
     return _concat_growth(n)
 
 
+CANCEL_LIST = 'self._cancel_list'
+
+_SAME_ELEMS = ('list', 'tuple', 'sorted', 'set', 'frozenset', 'copy',
+               'deepcopy', 'fromkeys', 'OrderedDict', 'deque')
+_SHRINKERS = ('remove', 'pop', 'clear', 'discard', 'difference_update',
+              'intersection_update', 'popleft')
+_GROWERS = ('extend', 'append', 'update', 'add', 'insert', 'appendleft',
+            'extendleft')
+
+
+def _tri(vals):
+    """agreement of three-valued answers"""
+    vals = list(vals)
+    if vals and all(v is True for v in vals):
+        return True
+    if all(v is False for v in vals):
+        return False
+    return None
+
+
+class _HoldsOld:
+    """Does the value of an expression hold every uid which the cancel list
+    held before the statement?  True / False / None (cannot tell).
+
+    True : the old list itself, a copy of it, a concatenation / union /
+           display with a starred part which holds it, an identity
+           comprehension over it, a local all of whose reaching definitions
+           hold it (and which is only ever extended afterwards)
+    False: the old list does not occur in the value at all, or only where it is
+           *tested* (`u not in self._cancel_list`, the `if` of a comprehension,
+           the test of a conditional expression, len()): such a value holds
+           only what the tests let through of the other operands
+    None : anything else which mentions the old list"""
+
+    def __init__(self, f):
+        self.f = f
+        self.g = cfg_of(f)
+        self.smap = I.stmt_node_map(self.g)
+
+    # -- names ----------------------------------------------------------------
+    def _name(self, e, at, depth):
+        if at is None:
+            return None
+        defs = reaching_defs(self.g, e.id, at.id)
+        if not defs:
+            return False                  # parameter / global / comp variable
+        res = []
+        for n, v in defs:
+            if v is None:
+                if n.kind == 'stmt' and isinstance(n.ast, ast.AugAssign) and \
+                        isinstance(n.ast.op, (ast.Add, ast.BitOr)):
+                    # x += y: holds what x held, and what y holds
+                    a = self._name(e, n, depth + 1)
+                    b = self.holds(n.ast.value, n, depth + 1)
+                    res.append(True if True in (a, b) else _tri([a, b]))
+                elif n.kind == 'for':
+                    res.append(False)     # an element, not a list
+                else:
+                    res.append(None)
+            else:
+                res.append(self.holds(v, n, depth + 1))
+        r = _tri(res)
+        # in-place changes of the local between its definition and the use
+        for c in walk(self.f.node):
+            if isinstance(c, ast.Call) and isinstance(c.func, ast.Attribute) \
+                    and isinstance(c.func.value, ast.Name) and \
+                    c.func.value.id == e.id:
+                if c.func.attr in _SHRINKERS and r is not False:
+                    return None
+                if c.func.attr in _GROWERS and r is False and any(
+                        self.holds(a, self.smap.get(id(c)), depth + 1)
+                        is not False for a in c.args):
+                    return None
+            if isinstance(c, ast.Delete) and r is not False and any(
+                    isinstance(t, ast.Subscript) and
+                    isinstance(t.value, ast.Name) and t.value.id == e.id
+                    for t in c.targets):
+                return None
+        return r
+
+    # -- fallback: is the old list mentioned where it is not merely tested? ---
+    def _mentions(self, e, at, depth):
+        if isinstance(e, ast.Compare):
+            return False
+        if isinstance(e, ast.Call) and isinstance(e.func, ast.Name) and \
+                e.func.id in ('len', 'bool', 'any', 'all', 'isinstance'):
+            return False
+        if unparse(e) == CANCEL_LIST:
+            return True
+        if isinstance(e, ast.Name):
+            return self._name(e, at, depth + 1) is not False
+        if isinstance(e, ast.IfExp):
+            return self._mentions(e.body, at, depth) or \
+                self._mentions(e.orelse, at, depth)
+        if isinstance(e, (ast.ListComp, ast.SetComp, ast.GeneratorExp,
+                          ast.DictComp)):
+            kids = [gen.iter for gen in e.generators]
+            kids += [e.key, e.value] if isinstance(e, ast.DictComp) \
+                else [e.elt]
+            bound = set()
+            for gen in e.generators:
+                bound |= set(stores_in_target(gen.target))
+            return any(self._mentions(k, at, depth) for k in kids
+                       if not (isinstance(k, ast.Name) and k.id in bound))
+        if isinstance(e, ast.Lambda):
+            return True
+        kids = [k.value if isinstance(k, ast.keyword) else k
+                for k in ast.iter_child_nodes(e)]
+        return any(self._mentions(k, at, depth) for k in kids
+                   if isinstance(k, ast.expr))
+
+    # -- the decision ---------------------------------------------------------
+    def holds(self, e, at, depth=0):
+        if depth > 24:
+            return None
+        if unparse(e) == CANCEL_LIST:
+            return True
+        if isinstance(e, ast.Name):
+            return self._name(e, at, depth)
+        if isinstance(e, ast.Call) and not e.keywords and len(e.args) == 1 \
+                and not isinstance(e.args[0], ast.Starred) and \
+                dotted(e.func).split('.')[-1] in _SAME_ELEMS:
+            return self.holds(e.args[0], at, depth + 1)
+        if isinstance(e, ast.Call) and isinstance(e.func, ast.Name) and \
+                e.func.id == 'sorted' and len(e.args) == 1:
+            return self.holds(e.args[0], at, depth + 1)
+        if isinstance(e, ast.Call) and isinstance(e.func, ast.Attribute) and \
+                not e.keywords:
+            if e.func.attr == 'copy' and not e.args:
+                return self.holds(e.func.value, at, depth + 1)
+            if e.func.attr == 'union':
+                parts = [self.holds(x, at, depth + 1)
+                         for x in [e.func.value] + list(e.args)]
+                return True if True in parts else _tri(parts)
+        if isinstance(e, ast.Subscript) and isinstance(e.slice, ast.Slice) and \
+                e.slice.lower is None and e.slice.upper is None and \
+                e.slice.step is None:
+            return self.holds(e.value, at, depth + 1)
+        if isinstance(e, ast.BinOp) and isinstance(e.op, (ast.Add, ast.BitOr)):
+            parts = [self.holds(e.left, at, depth + 1),
+                     self.holds(e.right, at, depth + 1)]
+            return True if True in parts else _tri(parts)
+        if isinstance(e, ast.BinOp) and isinstance(e.op, (ast.Sub,
+                                                          ast.BitAnd)):
+            # a difference / intersection holds no more than its left operand
+            return False if self.holds(e.left, at, depth + 1) is False \
+                else None
+        if isinstance(e, (ast.List, ast.Tuple, ast.Set)):
+            parts = [self.holds(x.value, at, depth + 1)
+                     for x in e.elts if isinstance(x, ast.Starred)]
+            if True in parts:
+                return True
+            parts += [not_(self._mentions(x, at, depth)) for x in e.elts
+                      if not isinstance(x, ast.Starred)]
+            return _tri([p for p in parts]) if parts else False
+        if isinstance(e, (ast.ListComp, ast.SetComp, ast.GeneratorExp)) and \
+                len(e.generators) == 1 and not e.generators[0].ifs and \
+                isinstance(e.elt, ast.Name) and \
+                unparse(e.elt) == unparse(e.generators[0].target):
+            return self.holds(e.generators[0].iter, at, depth + 1)
+        if isinstance(e, ast.IfExp):
+            a = self.holds(e.body, at, depth + 1)
+            b = self.holds(e.orelse, at, depth + 1)
+            return a if a == b else None
+        return None if self._mentions(e, at, depth) else False
+
+
+def not_(mentioned):
+    """three-valued `holds` answer for an operand which is not itself a list
+    part: False if the old list is not mentioned in it, None otherwise"""
+    return None if mentioned else False
+
+
+def cancel_list_rebinding(n):
+    """n binds self._cancel_list to something other than an empty container"""
+    return isinstance(n, ast.Assign) and any(
+        unparse(t) == CANCEL_LIST for t in n.targets) and \
+        not _empty_container(n.value)
+
+
 # ------------------------------------------------------------------------------
 # R08.1  selection by uid
 #
@@ -683,22 +863,34 @@ def r08_1(prog, rep, rid='R08.1'):
     grows = [n for n in walk(f.node) if cancel_list_growth(n) is not None]
     concat = _concat_growth
     # who may write: apart from its initialisation the list is only ever
-    # extended - a plain re-binding forgets the requests registered before
+    # extended - a re-binding whose value does not hold the old list (a plain
+    # `= uids`, or the new uids merely *filtered* against the old list)
+    # forgets the requests registered before
     replaced = []
-    for m in comp.methods.values():
+    rebuilt = {}                 # id(Assign) -> value, for re-bindings that
+    for m in comp.methods.values():                       # hold the old list
+        ho = None
         for n in walk(m.node):
-            if isinstance(n, ast.Assign) and any(
-                    unparse(t) == 'self._cancel_list' for t in n.targets):
-                if _empty_container(n.value) or concat(n) is not None:
+            if cancel_list_rebinding(n):
+                if concat(n) is not None:
                     continue
-                if 'self._cancel_list' in unparse(n.value):
+                if ho is None:
+                    ho = _HoldsOld(m)
+                held = ho.holds(n.value, ho.smap.get(id(n)))
+                if held is None:
                     raise AnalysisError('UNRECOGNISED-IDIOM %s: `%s` rebuilds '
                                         'the cancel list' % (m.where,
                                                              short(n, 50)))
+                if held:
+                    if m is f:
+                        rebuilt[id(n)] = n.value
+                        grows.append(n)
+                    continue
                 replaced.append((m, n))
     for m, n in replaced:
         rep.bad(rid, m, n, '%s replaces the cancel list (`%s`) instead of '
-                'extending it: the uids of earlier requests which no task has '
+                'extending it: the new value does not hold the old list, the '
+                'uids of earlier requests which no task has '
                 'consumed yet are forgotten%s' % (
                     m.qual, short(n, 50), ' (and the list is now the very '
                     'object of the message payload)' if isinstance(
@@ -710,7 +902,7 @@ def r08_1(prog, rep, rid='R08.1'):
         raise AnalysisError('UNRECOGNISED-IDIOM %s: self._cancel_list never '
                             'grows' % f.where)
     for n in grows:
-        val = cancel_list_growth(n)
+        val = rebuilt[id(n)] if id(n) in rebuilt else cancel_list_growth(n)
         dep = d.expr_depends(val)
         okay = ("%s['uids']" % av) in dep and smap[id(n)].id in brs[0][1]
         locked = any(any(unparse(i.context_expr) == 'self._cancel_lock'
@@ -1705,7 +1897,8 @@ def r08_8(prog, rep, rid='R08.8'):
     tm = prog.cls(*TMGR)
     sites = [prog.find_method(tm, 'cancel_tasks')]
     for m in comp.methods.values():
-        if any(cancel_list_growth(n) is not None for n in walk(m.node)):
+        if any(cancel_list_growth(n) is not None or cancel_list_rebinding(n)
+               for n in walk(m.node)):
             sites.append(m)
     hist = ("task.cancel() calls TaskManager.cancel_tasks(self.uid) with a "
             "string: the request then names the characters 't', 'a', 's', "
@@ -3498,6 +3691,14 @@ MUTATIONS = [
         (_U, _HND, "            me = repr(self)\n            if all(x in me for x in ['agent.scheduler', 'agent.executing']):\n                self.control_cb(topic, msg)\n                return\n")]),
     dict(name='R08.16 every queue of the backlog skipped inside the loop while a raptor queue is registered', rules=('R08.16',), edits=[
         (_S, _RAPL, "                for queue in self._raptor_tasks:\n                    if self._raptor_queues:\n                        continue\n")]),
+    dict(name='R08.1 cancel list re-bound to the new uids filtered against it (seed C08-j1)', rules=('R08.1',), edits=[
+        (_U, '                self._cancel_list += uids\n', '                self._cancel_list = [uid for uid in uids\n                                         if  uid not in self._cancel_list]\n')]),
+    dict(name='R08.1 cancel list re-bound to a local which holds only the filtered new uids', rules=('R08.1',), edits=[
+        (_U, '                self._cancel_list += uids\n', '                fresh = list()\n                for uid in uids:\n                    if uid not in self._cancel_list:\n                        fresh.append(uid)\n                self._cancel_list = fresh\n')]),
+    dict(name='R08.1 cancel list re-bound to a set difference with itself', rules=('R08.1',), edits=[
+        (_U, '                self._cancel_list += uids\n', '                self._cancel_list = list(set(uids) - set(self._cancel_list))\n')]),
+    dict(name='R08.1 cancel list re-bound by a conditional expression both arms of which drop it', rules=('R08.1',), edits=[
+        (_U, '                self._cancel_list += uids\n', '                self._cancel_list = list(uids) if self._cancel_list else [u for u in uids if u not in self._cancel_list]\n')]),
 ]
 
 SILENT = [
@@ -3656,4 +3857,14 @@ SILENT = [
         (_S, _RAPL, "                for queue in self._raptor_tasks:\n                    if not self._raptor_tasks[queue]:\n                        continue\n")]),
     dict(name='raptor backlog: queues whose master is registered skipped (they hold nothing)', edits=[
         (_S, _RAPL, "                for queue in self._raptor_tasks:\n                    if queue in self._raptor_queues:\n                        continue\n")]),
+    dict(name='cancel list re-bound to itself plus the new uids which it does not hold yet', edits=[
+        (_U, '                self._cancel_list += uids\n', '                self._cancel_list = self._cancel_list + [uid for uid in uids\n                                         if  uid not in self._cancel_list]\n')]),
+    dict(name='cancel list re-bound to a starred display of itself and the new uids', edits=[
+        (_U, '                self._cancel_list += uids\n', '                self._cancel_list = [*self._cancel_list, *uids]\n')]),
+    dict(name='cancel list merged in a local copy which is extended in a loop, then re-bound', edits=[
+        (_U, '                self._cancel_list += uids\n', '                merged = list(self._cancel_list)\n                for uid in uids:\n                    merged.append(uid)\n                self._cancel_list = merged\n')]),
+    dict(name='cancel list re-bound through two locals: old list, then old + new', edits=[
+        (_U, '                self._cancel_list += uids\n', '                pending = self._cancel_list\n                todo = pending + list(uids)\n                self._cancel_list = todo\n')]),
+    dict(name='cancel list extended by the new uids filtered against it', edits=[
+        (_U, '                self._cancel_list += uids\n', '                self._cancel_list += [uid for uid in uids\n                                         if  uid not in self._cancel_list]\n')]),
 ]
